@@ -205,6 +205,10 @@ FIXES = {
     'copy-move-raises-when-entry-removed':
         'CacheStore.store: create the temporary file in the cache directory and os.replace() it (no '
         'copy+copystat on the final path); or treat ENOENT from the move like EACCES',
+    'purge-spares-listed-temp-file':
+        'CacheStore._clean must remove every file it lists except the stamp, including the temporaries of '
+        'store() calls in flight: a temporary written by the previous scanner version that survives the purge '
+        'is renamed into place under the new stamp (the writer tolerates ENOENT on its final move)',
     'old-version-store-survives-purge':
         'record the scanner version inside each entry (or in its file name) and compare on load; a '
         'directory-wide stamp cannot cover entries renamed into place after the purge listed the directory',
@@ -320,6 +324,17 @@ def classify(mon, c, reasons):
         listed = [k for k, e in enumerate(allev) if e[3] == 'listdir' and e[4] == CACHE
                   and inst.get(e[1]) == c['install']]
         if placed and listed and placed[-1] > listed[0]:
+            # schedule shape: was the writer's temporary already in the directory when the purge listed
+            # it (the purge saw the file and must have removed it), or was it created only afterwards
+            # (the purge could not see it - the listed finding on the unchanged tree)?
+            purge = max(k for k in listed if k < placed[-1])
+            born = [k for k, e in enumerate(allev) if e[5] == ino and e[3] == 'mkstemp']
+            if born and born[0] < purge and posixpath.basename(allev[born[0]][4]) in (allev[purge][6] or ()):
+                tmp_path, purger = allev[born[0]][4], allev[purge][1]
+                # ... and the purging process never even tried to remove it (an attempt that came too late,
+                # after the writer's rename, is the listed listdir/rename race, not this)
+                if not any(e[3] == 'unlink' and e[4] == tmp_path and e[1] == purger for e in allev[purge:]):
+                    return 'purge-spares-listed-temp-file'
             return 'old-version-store-survives-purge'
         return 'version-change-does-not-discard-entry'
     if any(r.startswith('R1: result is not') for r in reasons):
